@@ -451,3 +451,32 @@ def returns_only_through(cfg: "CFG", atom: Callable[[ast.AST], Optional[bool]], 
         if t in seen:
             return False, cfg.path_to(seen, t), guards
     return True, [], guards
+
+
+def reaching_defs(g: "CFG", name: str, use: int) -> List[Node]:
+    """Assignment nodes ``name = ...`` (plain Name target, incl. tuple targets and for-targets)
+    that can reach CFG node *use* without an intervening redefinition of *name*."""
+
+    def defines(n: Node) -> bool:
+        a = n.ast
+        if a is None:
+            return False
+        if n.kind == "stmt" and isinstance(a, (ast.Assign, ast.AnnAssign, ast.AugAssign)):
+            tgts = a.targets if isinstance(a, ast.Assign) else [a.target]
+            return any(isinstance(x, ast.Name) and x.id == name for t in tgts for x in ast.walk(t) if isinstance(x, ast.Name) and isinstance(x.ctx, ast.Store))
+        if n.kind == "for" and isinstance(a, ast.For):
+            return any(isinstance(x, ast.Name) and x.id == name for x in ast.walk(a.target))
+        if n.kind == "with" and isinstance(a, ast.With):
+            return any(it.optional_vars is not None and any(isinstance(x, ast.Name) and x.id == name for x in ast.walk(it.optional_vars)) for it in a.items)
+        if n.kind == "except" and isinstance(a, ast.ExceptHandler):
+            return a.name == name
+        return False
+
+    defs = [n for n in g.nodes if defines(n)]
+    out = []
+    for d in defs:
+        blocked = {o.id for o in defs if o.id != d.id and o.id != use}
+        seen = g.reach([t for t, _l in g.succ[d.id]], blocked=blocked)
+        if use in seen:
+            out.append(d)
+    return out
